@@ -114,16 +114,22 @@ class FakeWriter:
         self.closing = False
         self.hang_close = hang_close
         self.hang_drain = False
+        self.hang_from = 0        # drain only stalls once this many frames were written
+        self.fault = None         # 'write': write() raises; 'drain': the frame is taken, drain() raises (peer reset)
         self._closed_fut = None
         self._drain_waiters = []
 
     def write(self, data):
+        if self.fault == 'write':
+            raise ConnectionResetError('write fault injected by the harness')
         if isinstance(data, (bytes, bytearray)) and self.decoder is not None:
             data = self.decoder(bytes(data))
         self.frames.append(data)
 
     async def drain(self):
-        if self.hang_drain:
+        if self.fault == 'drain':
+            raise ConnectionResetError('drain fault injected by the harness')
+        if self.hang_drain and len(self.frames) >= self.hang_from:
             # a full socket buffer: every writer waits until the transport resumes (FIFO, as asyncio's _drain_helper)
             fut = asyncio.get_running_loop().create_future()
             self._drain_waiters.append(fut)
